@@ -351,6 +351,29 @@ fn utf8(lines: &[String]) -> (usize, Vec<Value>) {
             if back.as_ptr() != s1.as_ptr() || back != s1 || c2.as_ptr() != s1.as_ptr() || c2.len() != s1.len() {
                 msg = Some("str -> CSliceRef -> str is not the identity".to_string());
             }
+            // &mut str -> CSliceMut<u8> -> {&str, &mut str, into_str, into_mut_str, &[u8]}: same address, length, bytes
+            let ms: &mut str = r3.unwrap();
+            let (mptr, mlen) = (ms.as_ptr(), ms.len());
+            let ms2: &mut str = unsafe { &mut *(ms as *mut str) };
+            let cm = CSliceMut::from(ms2);
+            if cm.as_ptr() != mptr || cm.len() != mlen || cm.as_slice() != &bytes[..] {
+                msg = Some(format!("&mut str -> CSliceMut changed address, length or bytes: len {} expected {}", cm.len(), mlen));
+            } else {
+                let back_mut = unsafe { cm.into_mut_str() };
+                if back_mut.as_ptr() != mptr || back_mut.len() != mlen || back_mut.as_bytes() != &bytes[..] {
+                    msg = Some("&mut str -> CSliceMut -> into_mut_str is not the identity".to_string());
+                }
+                let ms3: &mut str = unsafe { &mut *(back_mut as *mut str) };
+                let back_ref = unsafe { CSliceMut::from(ms3).into_str() };
+                if back_ref.as_ptr() != mptr || back_ref.len() != mlen {
+                    msg = Some("&mut str -> CSliceMut -> into_str is not the identity".to_string());
+                }
+                let ms4: &mut str = unsafe { &mut *(ms as *mut str) };
+                match <&mut str>::try_from(CSliceMut::from(ms4)) {
+                    Ok(b) if b.as_ptr() == mptr && b.len() == mlen => {}
+                    _ => msg = Some("&mut str -> CSliceMut -> TryFrom<&mut str> is refused or not the identity".to_string()),
+                }
+            }
         }
         if let Some(m) = msg {
             failures.push(json!({"behaviour": bi, "step": 0, "msg": m, "beh": v}));
